@@ -720,6 +720,16 @@ func c14NTSOne(r *ev.Run, id string, rng *rand.Rand) {
 	key := c14RandBytes(rng, 32)
 	hdr := c14RandNTP(rng)
 	var buf []byte
+	dirty := rng.IntN(2) == 0
+	if dirty {
+		// listeners and clients encode into the buffer they last received into: it holds the bytes of
+		// an earlier datagram, and it is large enough not to be replaced by the encoder
+		old := make([]byte, 4096)
+		for i := range old {
+			old[i] = byte(0xa5 ^ i)
+		}
+		buf = old[:0]
+	}
 	ntp.EncodePacket(&buf, &hdr)
 	hdrBytes := append([]byte(nil), buf...)
 
@@ -918,6 +928,9 @@ func c14NTSOne(r *ev.Run, id string, rng *rand.Rand) {
 		r.Class("nts:fields-aligned-values")
 	} else {
 		r.Class("nts:fields-padded-values")
+		if dirty {
+			r.Class("nts:fields-padded-values,encoded into a buffer holding an earlier datagram")
+		}
 	}
 	// the cookies a response carries inside the authenticator come back as cookies
 	if len(enc) > 0 && kindsOK {
@@ -1156,13 +1169,46 @@ func c14GenKE(rng *rand.Rand, shape int) *c14KEMsg {
 		panic(err)
 	}
 	m.stream = buf.Bytes()
+	// record types this implementation does not know, without the critical bit, are to be skipped
+	// whatever their bodies look like and however the transport cuts them; they are spliced into
+	// the packed stream in front of randomly chosen records
+	kinds := make([]string, 0, len(items)+4)
+	for _, it := range items {
+		kinds = append(kinds, it.kind)
+	}
+	if shape == 0 && rng.IntN(3) == 0 {
+		var out []byte
+		var ks []string
+		pos := 0
+		for i := 0; pos+4 <= len(m.stream); i++ {
+			bl := int(binary.BigEndian.Uint16(m.stream[pos+2:]))
+			if rng.IntN(4) == 0 {
+				body := c14RandBytes(rng, []int{0, 1, 4, 8, 23, 60, 200}[rng.IntN(7)])
+				if rng.IntN(2) == 0 { // a body that reads as records of its own: a cookie and an end of message
+					body = append([]byte{0x00, 0x05, 0x00, 0x04, 0xde, 0xad, 0xbe, 0xef, 0x80, 0x00, 0x00, 0x00}, body...)
+				}
+				typ := uint16(8 + rng.IntN(0x3ff0)) // unassigned record types, critical bit clear
+				hdr := []byte{byte(typ >> 8), byte(typ), byte(len(body) >> 8), byte(len(body))}
+				out = append(append(out, hdr...), body...)
+				ks = append(ks, "unknown-noncritical")
+			}
+			out = append(out, m.stream[pos:pos+4+bl]...)
+			if i < len(kinds) {
+				ks = append(ks, kinds[i])
+			} else {
+				ks = append(ks, "?")
+			}
+			pos += 4 + bl
+		}
+		m.stream, kinds = out, ks
+	}
 	// record spans, from the harness's own walk over the packed stream
 	pos := 0
 	for i := 0; pos+4 <= len(m.stream); i++ {
 		bl := int(binary.BigEndian.Uint16(m.stream[pos+2:]))
 		kind := "?"
-		if i < len(items) {
-			kind = items[i].kind
+		if i < len(kinds) {
+			kind = kinds[i]
 		}
 		m.recs = append(m.recs, c14Rec{Kind: kind, Off: pos, Body: pos + 4, End: pos + 4 + bl})
 		pos += 4 + bl
